@@ -16,6 +16,10 @@ CLAIMS = {
          "Partial by nature: files on disk and Python's re are external. The DOT reader understands exactly the shapes tealer emits.", "8/C18"),
  'C20': ("Lean model of _is_match / _find_instructions (Regex.lean) with the theorem that every reported match starts at an instruction reachable from the label at which the pattern occurs consecutively in straight-line code, lists those instructions in order, and every covered instruction is reachable (C20_sound, by induction on the search with an invariant over visited / matches / covered); + correspondence of matches and covered with the real match_regex; + independent reachability-closure oracle for completeness of the match set and soundness of covered",
          "Completeness of `covered` is false on the unchanged tree (known finding F23); completeness of the match set is decided by the oracle, not yet a theorem.", "8/C20"),
+ 'C14': ("Lean theorems: the model is a pure function of the program; whatever the initial order of the worklist (any order a set iteration may give) the result solves the equations when the loop stops (worklist theorem), permuting the initial worklist keeps the precondition, detectors read the contexts as an immutable argument; + on every run: the same contract analysed fresh, after random histories in the same process, with detectors registered in shuffled orders and re-run on one Tealer object, and in fresh processes under several PYTHONHASHSEED values with byte-identical JSON",
+         "Partial by nature: hash seeds, id()-ordered sets, lru_caches and module-level lists are Python runtime behaviour that the pure model cannot exhibit; uniqueness of the fixpoint (confluence) is not yet a theorem.", "8/C14"),
+ 'C15': ("Lean theorems on the model: int / pushint / intcblock+intc spellings push the same known value, named type and completion constants denote their numbers, stack-neutral padding leaves the symbolic stack unchanged, consistent label renaming resolves every jump to the same position; + metamorphic check on the real tool: random compositions of label renaming, integer spellings (decimal/hex/octal, names), int->pushint, comments / blank lines / indentation, padding, moving subroutine bodies leave per-block contexts (matched through instruction ids) and detector verdicts unchanged",
+         "The end-to-end relation analyse(rewrite p) = rename(analyse p) is checked metamorphically, not yet proved as one theorem.", "8/C15"),
  'C16': ("Lean theorems (kernel decide over the parse table REGENERATED from the real parse_line on every run): every opcode sample is parsed into the class and printed form of the specification table (no prefix capture), its printed form parses back to an identical instruction, unknown opcodes are kept verbatim; + the real parser run on every sample x whitespace/comment variants, decimal/hex/octal integer spellings, hex/base64/base32 byte forms, programs with blank and comment lines for the recorded line numbers",
          "Python's int(), base64 and re are not modelled (partial by nature). Known finding F19 (method signature printed without quotes).", "8/C16"),
  'C19': ("Lean theorems (kernel decide over regenerated tables): introduction version, execution mode and per-version opcode cost of every sample equal the specification tables; model of the version flag and of mode detection; + the real parse_teal run on every sample x declared versions 1..8 (stderr of the version check), random mode mixtures (mode, mixed-mode report, contract type) and random blocks (displayed cost = sum of table costs)",
